@@ -648,7 +648,8 @@ func (s *Solver) Check(pc []*Term, extra *Term) Result {
 			fmt.Fprintf(os.Stderr, "progress: %d queries, solver %.1fs, stack depth %d\n", s.Queries, s.Time.Seconds(), len(s.stack))
 		}
 		if os.Getenv("VERIF_QTIME") != "" {
-			fmt.Fprintf(os.Stderr, "query %d: %.2fs\n", s.Queries, d.Seconds())
+			_, f, l, _ := runtime.Caller(2)
+			fmt.Fprintf(os.Stderr, "query %d: %.2fs %s:%d pc=%d\n", s.Queries, d.Seconds(), f[strings.LastIndex(f, "/")+1:], l, len(pc))
 		}
 	}()
 	s.Sync(pc)
